@@ -37,7 +37,7 @@ var Rich = &Alphabet{
 	AttrReq:   []bool{false, true},
 	Literals:  []*Spec{{K: KLiteral, Ty: TString}, {K: KLiteral, Ty: TNumber, Null: true}},
 	Exprs:     []Expr{S("E"), R("g")},
-	AttrsTys:  []string{TString, TNumber, TDynamic},
+	AttrsTys:  []string{TString, TNumber, TDynamic, TListDyn},
 	AttrsReq:  []bool{false, true},
 	MaxLabel:  1,
 	BlockReq:  []bool{false, true},
